@@ -19,6 +19,7 @@ package generator
 import (
 	"go/token"
 	"path/filepath"
+	"strconv"
 	"strings"
 	"unicode"
 	"unicode/utf8"
@@ -69,22 +70,33 @@ func goTrackerLocalName(tracker namer.ImportTracker, localPkg string, t types.Na
 	}
 	localLeaf := filepath.Base(localPkg)
 
+	taken := func(name string) bool {
+		// This name collides with some other package.
+		// Or, this name is tne same name as the local package,
+		// which we avoid because it can be confusing. For example,
+		// if the local package is v1, we to avoid importing
+		// another package using the v1 name, and instead import
+		// it with a more qualified name, such as metav1.
+		_, found := tracker.PathOf(name)
+		return found || name == localLeaf
+	}
+
 	dirs := strings.Split(path, namer.GoSeperator)
+	name := ""
 	for n := len(dirs) - 1; n >= 0; n-- {
 		// follow kube convention of not having anything between directory names
-		name := importName(strings.Join(dirs[n:], ""))
-		if _, found := tracker.PathOf(name); found || name == localLeaf {
-			// This name collides with some other package.
-			// Or, this name is tne same name as the local package,
-			// which we avoid because it can be confusing. For example,
-			// if the local package is v1, we to avoid importing
-			// another package using the v1 name, and instead import
-			// it with a more qualified name, such as metav1.
-			continue
+		name = importName(strings.Join(dirs[n:], ""))
+		if !taken(name) {
+			return name
 		}
-		return name
 	}
-	panic("can't find import for " + path)
+	// Even the fully qualified name is taken (e.g. "a/b" after "x/b" and
+	// "ab"): number it.
+	for i := 2; ; i++ {
+		if numbered := name + strconv.Itoa(i); !taken(numbered) {
+			return numbered
+		}
+	}
 }
 
 // importName turns the concatenated directory names of an import path into a
